@@ -1053,6 +1053,8 @@ fn probes(out: &mut Out) {
 //   * only boolean conditions accepted by the strict typechecker are observable (others are counted and skipped);
 //   * the impl line is the folded term: `(some (b true))`, `(some (b false))`, `(none)`; anything else is printed
 //     as `(nonliteral …)` and diffs;  a CompileError after a successful typecheck is `(reject)`.
+// THIRD fragment: set literals of longs / strings / users (duplicates frequent), `contains containsAll containsAny
+// isEmpty`, set `==`, an erroring element (`[1, MAX + 1]`); no mixed-type sets (see symc_set_bool).
 // Request line: `(symc REQ (etys …) EXPR)` with EXPR = `Policy::condition()` (scope conjuncts `true && …` included).
 // S (implementation only): the folded term equals what `Evaluator::evaluate` gives on the same request.
 
@@ -1108,9 +1110,47 @@ fn symc_ctx_bool(r: &mut Rng, d: u32) -> String {
     }
 }
 
+/// third fragment: a set literal of 1..4 longs / strings / users (small pools, so duplicates are frequent; the strict
+/// typechecker rejects `[]` without a type context and mixed-type sets, so none are generated except as planted cases)
+fn symc_set(r: &mut Rng, kind: usize, d: u32) -> String {
+    let n = 1 + r.below(4);
+    let elts: Vec<String> = (0..n).map(|_| symc_elt(r, kind, d)).collect();
+    format!("[{}]", elts.join(", "))
+}
+
+fn symc_elt(r: &mut Rng, kind: usize, d: u32) -> String {
+    match kind {
+        0 => if r.chance(70) { format!("{}", r.range(-2, 4)) } else { symc_long(r, d) },
+        1 => symc_str(r, d),
+        _ => symc_user(r, d),
+    }
+}
+
+fn symc_set_bool(r: &mut Rng, d: u32) -> String {
+    let kind = r.below(3);
+    match r.below(9) {
+        0 | 1 => format!("{}.contains({})", symc_set(r, kind, d), symc_elt(r, kind, d)),
+        2 => format!("{}.containsAll({})", symc_set(r, kind, d), symc_set(r, kind, d)),
+        3 => format!("{}.containsAny({})", symc_set(r, kind, d), symc_set(r, kind, d)),
+        4 => format!("{}.isEmpty()", symc_set(r, kind, d)),
+        5 => format!("({} == {})", symc_set(r, kind, d), symc_set(r, kind, d)),
+        6 => { let s = symc_set(r, kind, d); if r.chance(50) { format!("({s} == {s})") } else { format!("{s}.containsAll({s})") } }
+        // an erroring element makes the whole set `none`
+        7 => format!("[1, 9223372036854775807 + 1, {}].contains({})", symc_long(r, d), symc_long(r, d)),
+        // (no planted mixed-type sets: the typechecker DROPS the operand of `&&`/`||` after a guard it types False/True —
+        // e.g. `(… && action == Action::"edit") && [1, "x"].contains(0)` on action view — so the compiler never sees the
+        // ill-typed set while the model line carries the original condition; such sets are CompileError::TypeError in
+        // the model (examples in Thm/C18.lean) and unobservable through the public API)
+        _ => format!("!({}.isEmpty())", symc_set(r, kind, d)),
+    }
+}
+
 fn symc_bool(r: &mut Rng, d: u32) -> String {
     if r.chance(22) {
         return symc_ctx_bool(r, d.min(1));
+    }
+    if r.chance(18) {
+        return symc_set_bool(r, d.min(1));
     }
     if d == 0 {
         return match r.below(4) {
@@ -1200,6 +1240,16 @@ pub fn run_symc(args: &Args, out: &mut Out) {
         "context has zz || context.flag".into(),
         "context == context".into(),
         "(if context has m then context.m else context.n) + 9223372036854775807 < 0".into(),
+        "[1, 2, 2, 1].contains(2)".into(),
+        "[1, 9223372036854775807 + 1].contains(1)".into(),
+        "[3, 1, 2] == [2, 3, 1, 1]".into(),
+        "[1, 2].containsAll([2, 2])".into(),
+        "[1, 2].containsAll([2, 3])".into(),
+        "[\"x\", \"\"].containsAny([\"x y\", \"\"])".into(),
+        "[principal, User::\"a\"].contains(User::\"b\")".into(),
+        "[1].isEmpty() || [User::\"a\", User::\"b\"] == [User::\"b\", User::\"a\"]".into(),
+        "[-1, 1] == [1]".into(),
+        "[context.n, 1].contains(context.n)".into(),
     ];
     let total = fixed.len() as u64 + args.n;
     for case in 0..total {
@@ -1273,6 +1323,7 @@ pub fn run_symc(args: &Args, out: &mut Out) {
         out.count(&format!("symc:folded:{}", if imp.starts_with("(nonliteral") { "(nonliteral)" } else { imp.as_str() }));
         out.nontrivial(&format!("{body}|{p}|{a}|{cdesc}"));
         if body.contains("context") { out.count("symc:uses-context"); }
+        if body.contains('[') { out.count("symc:uses-set"); }
         if out.samples.len() < 5 {
             out.sample(format!("{describe} -> {imp}"));
         }
